@@ -18,8 +18,9 @@ skip_tests = "--skip-tests" in sys.argv
 wt = os.environ.get("SEED_WT_DIR", f"/tmp/mut_{prop}")
 patch = os.path.join(outdir, f"patch_{idx}.diff")
 demo = os.path.join(outdir, f"demo_{idx}.py")
-meta_all = json.load(open(os.path.join(outdir, "meta.json")))
-meta_in = next((m for m in meta_all if str(m.get("patch", "")).endswith(f"patch_{idx}.diff")), meta_all[int(idx) - 1])
+if "--recheck" not in sys.argv:
+    meta_all = json.load(open(os.path.join(outdir, "meta.json")))
+    meta_in = next((m for m in meta_all if str(m.get("patch", "")).endswith(f"patch_{idx}.diff")), meta_all[int(idx) - 1])
 
 
 def sh(cmd, **kw):
